@@ -20,6 +20,11 @@ func New(ctx context.Context, cfg config.Config) (*db, error) {
 
 	container := di.New(cfg)
 
+	// the container builds its parts lazily and without synchronisation: build everything the
+	// client calls need before the handle can be shared between goroutines
+	container.Store()
+	container.Transaction()
+
 	container.Pool().Run(ctx)
 	deleteFiles, err := container.Core().Load(ctx)
 	if err != nil {
